@@ -127,16 +127,31 @@ func historyCase(c *core.Ctx, which string, i, nsteps int) {
 		case x <= 4:
 			ts := e.P.AllTargets()
 			o.Failing = []string{ts[r.IntN(len(ts))].Label()}
-		case x == 5:
-			// an interrupted build: the process is killed inside (or right around) one body
-			ts := e.P.AllTargets()
+		case x == 5 || x == 6:
+			// an interrupted build: the process is killed inside (or right around) one body. Half
+			// of the time the reason the victim runs is transient (its output was just deleted).
 			o.Child, o.NoCheck = true, true
-			o.Env = []string{fmt.Sprintf("VERIF_CRASH=%s|%s|1", []string{"body.start", "body.mid", "body.end", "eval.after-body", "eval.before-body"}[r.IntN(5)], ts[r.IntN(len(ts))].Label())}
+			if r.IntN(2) == 0 {
+				e.Edit("output-delete")
+			}
 		}
 		if !o.Child {
 			o.Child = r.IntN(3) == 0
 		}
 		target := pickTarget(e)
+		if o.NoCheck {
+			// the victim is a target that is going to run in this build
+			var victims []string
+			for _, l := range e.Closure(target) {
+				if e.Stale(l) != "" {
+					victims = append(victims, l)
+				}
+			}
+			if len(victims) == 0 {
+				victims = e.Closure(target)
+			}
+			o.Env = []string{fmt.Sprintf("VERIF_CRASH=%s|%s|1", []string{"body.start", "body.mid", "body.end", "eval.after-body", "eval.before-body"}[r.IntN(5)], victims[r.IntN(len(victims))])}
+		}
 		staleBefore, forbidden := 0, 0
 		for _, l := range e.Closure(target) {
 			if e.Stale(l) != "" {
